@@ -143,6 +143,10 @@ def main(tier, replay):
         cases.append(('d%d' % i, 'fam', ch, ('lua', 'null')[i % 2], h))
         ch, h = C.gen_hist_chart(base + 850000 + i)
         cases.append(('h%d' % i, 'fam', ch, ('lua', 'null')[i % 2], h))
+        for k in range(3):
+            # selection among parallel regions: domains of every size on the same event
+            ch, h = C.gen_conflict_chart(base + 900000 + 3 * i + k)
+            cases.append(('k%d_%d' % (i, k), 'fam', ch, ('lua', 'null')[i % 2], h))
     fam = list(C.family_E(2, 2)) if tier == 'quick' else list(C.family_E(3, 2))
     n = 0
     for ch in fam:
